@@ -23,9 +23,10 @@ AUDIT = "Spydr/Hier/Audit.lean"
 
 # signatures of the open findings (known_findings.d/hier.json)
 SIG_ALL_WIRE = "get_hwires.ALL.from-wire-without-port-pin.stops-at-the-wire"
-SIG_ALL_CABLE = "get_hcables.ALL.from-wire-without-port-pin.stops-at-the-cable"
+SIG_ALL_CABLE = "get_hcables.ALL.from-wire-whose-first-pin-is-an-instance-pin.stops-at-the-cable"
 SIG_NARROW = "get_hcables.narrow-selection.from-hpin.walks-past-the-adjacent-wire"
 SIG_UNIQUE = "HRef.is_unique.true-for-port-or-cable-reference-into-shared-definition"
+SIG_NOREF = "get_hinstances.instance-without-reference.no-occurrences-returned"
 
 
 def _meta():
@@ -718,8 +719,12 @@ def check_c11(res, sess, recipe, rng, tier_scale, edits=None, tag="gen"):
         res.dist("c11.root=%s" % rj["k"])
         if not a["fin"]:
             res["obligations"].append(("hier: model search finished within its fuel", False, json.dumps(inp)[:800]))
+        # open finding: get_all_hrefs_of_instances finds the netlist through instance.reference only
+        noref = (f == "hinst" and rj["k"] == "inst" and impl == [] and getattr(obj, "reference", 0) is None
+                 and getattr(obj, "parent", None) is not None)
         if impl != model:
-            res.corr_mismatch("Spydr.Hier." + f + " vs spydrnet.get_" + f + "s", inp, impl, model)
+            res.corr_mismatch("Spydr.Hier." + f + " vs spydrnet.get_" + f + "s", inp, impl, model,
+                              signature=SIG_NOREF if noref else None)
         if isinstance(impl, dict):
             res.spec_failure("get_%ss.%s.raises-%s" % (f, rj["k"], impl["exc"]), inp, "query raised")
             continue
@@ -737,7 +742,7 @@ def check_c11(res, sess, recipe, rng, tier_scale, edits=None, tag="gen"):
             miss = sorted(set(map(tuple, exp)) - set(tups))
             extra = sorted(set(tups) - set(map(tuple, exp)))
             what = "omission" if miss and not extra else ("extra" if extra and not miss else "differs")
-            res.spec_failure("get_%ss.%s.%s" % (f, rj["k"], what), inp,
+            res.spec_failure(SIG_NOREF if (noref and what == "omission") else "get_%ss.%s.%s" % (f, rj["k"], what), inp,
                              "missing %r extra %r" % (miss[:3], extra[:3]))
         for h in hrefs:
             k = tuple(path_of(h, ids))
@@ -871,6 +876,14 @@ def check_c11(res, sess, recipe, rng, tier_scale, edits=None, tag="gen"):
 def all_port_pins(w):
     from spydrnet.ir.outerpin import OuterPin
     return all(not isinstance(x, OuterPin) for x in w.pins)
+
+
+def wire_is_seen(w, f):
+    """does the pinned commit's BOTH/ALL branch start the closure from this wire?"""
+    from spydrnet.ir.outerpin import OuterPin
+    if f == "hwire":
+        return any(not isinstance(x, OuterPin) for x in w.pins)
+    return bool(w.pins) and not isinstance(w.pins[0], OuterPin)
 
 
 def wire_has_port_pin(w):
@@ -1013,9 +1026,12 @@ def check_c12(res, sess, recipe, rng, tier_scale, tag="gen", only=None):
                                                 "omission" if miss and not extra else ("extra" if extra and not miss else "differs"))
                 # --- classification of the two open findings (exact failure classes) ---
                 if sel == "A" and kind in ("hwire", "hcable") and miss and not extra:
+                    # get_hwires: the BOTH/ALL branch drops every outer pin of the start wire, so the closure
+                    # only starts when the wire has a port pin; get_hcables additionally clobbers its
+                    # `href_inst` at the first outer pin, so only port pins listed before it count
                     reach, blind = set(), False
                     for kw in sw:
-                        if wire_has_port_pin(ids.keep[kw[0]]):
+                        if wire_is_seen(ids.keep[kw[0]], f):
                             reach.update(nets.net_of_wire(kw))
                         else:
                             blind = True
